@@ -56,11 +56,17 @@ def run_graph(nodes, triplets, method, **kw):
     return [[p + 1, int(c)] for p, c in zip(pos, df["cluster"])], labels_ok
 
 
-def triplets_from_edges(edges, rng, as_array):
+def triplets_from_edges(edges, rng, as_array, orient="both"):
+    """neighbour lists as the search functions produce them: both orientations (symdel, hash_based, kdtree) or, with
+    max_returns, possibly one orientation only - in either order"""
     t = []
     for i, j in edges:
         d = rng.choice([0, 1, 2])
-        t += [(i - 1, j - 1, d), (j - 1, i - 1, d)]
+        o = orient if orient != "mixed" else rng.choice(["both", "ij", "ji"])
+        if o in ("both", "ij"):
+            t.append((i - 1, j - 1, d))
+        if o in ("both", "ji"):
+            t.append((j - 1, i - 1, d))
     rng.shuffle(t)
     return np.array(t) if (as_array and t) else t
 
@@ -68,7 +74,8 @@ def triplets_from_edges(edges, rng, as_array):
 def replay_cc(ctx, doc, k):
     n, edges = doc["n"], doc["edges"]
     nodes = [["CASSF", "CASSY", "CASSF", "CAWF", "CATTF"][i % 5] + ("" if k % 2 else str(i)) for i in range(n)]     # duplicates allowed
-    trip = triplets_from_edges(edges, ctx.rng, k % 3 == 0)
+    orient = ("both", "ji", "mixed", "ij")[k % 4]
+    trip = triplets_from_edges(edges, ctx.rng, k % 3 == 0, orient)
     want = partition_of([(i, doc["label"][i - 1]) for i in doc["reported"]])
     rp = dict(kind="replay", doc=doc)
     ctx.case(dict(fn="graph_clustering/cc", n=n, edges=edges), nontrivial=len(edges) > 0 and len(doc["reported"]) < n)
@@ -137,7 +144,10 @@ def make_sessions(ctx, nses):
         if typ in (0, 1):
             # neighbour list produced by the real search -> graph_clustering
             method = ("cc", "cc", "fastgreedy", "multilevel", "leiden")[sid % 5] if typ == 0 else "cc"
-            trip = prs.nearest_neighbor(seqs, max_edits=k)
+            if sid % 3 == 0:
+                trip = prs.kdtree(seqs, max_edits=k, max_returns=ctx.rng.choice([1, 2]))      # possibly one orientation only
+            else:
+                trip = prs.nearest_neighbor(seqs, max_edits=k)
             edges = sorted({(min(i, j) + 1, max(i, j) + 1) for i, j, _ in trip})
             ev = dict(op="Graph", method=method, raised=False, clusters=[], labels_ok=True)
             try:
